@@ -176,7 +176,7 @@ def r2_no_mutable_access(ctx):
         ctx.check(fld["vis"] != "pub" and a["variants"][0]["ctor"] != "pub", "C09.R2", adt, "private-constructor", "the tuple field/constructor of %s is public" % adt)
 
 
-def r3_total_order(ctx):
+def r3_total_order(ctx, rule="C09.R3"):
     F = ctx.facts
     cmpf = F.fn("<%s as core::cmp::Ord>::cmp" % SO)
     pcs = F.fns.get("<%s as core::cmp::PartialOrd>::partial_cmp" % SO, [])
@@ -207,8 +207,8 @@ def r3_total_order(ctx):
                 for p in run(fn):
                     if p.end != "return" or p.ret is not (a == b):
                         bad.append((a, b, "== yields %s" % (p.ret,)))
-    ctx.check(not bad, "C09.R3", cmpf.key, "numeric-total-order", "for %r vs %r: %s" % (bad[0] if bad else (0, 0, "")), detail="%d ordered pairs of legal values" % n, loc=cmpf.loc())
-    ctx.check(len(pcs) == 1 and len(eqs) == 1, "C09.R3", SO, "derived-comparisons", "PartialOrd/PartialEq impls of SingleObjective: %d/%d" % (len(pcs), len(eqs)))
+    ctx.check(not bad, rule, cmpf.key, "numeric-total-order", "for %r vs %r: %s" % (bad[0] if bad else (0, 0, "")), detail="%d ordered pairs of legal values" % n, loc=cmpf.loc())
+    ctx.check(len(pcs) == 1 and len(eqs) == 1, rule, SO, "derived-comparisons", "PartialOrd/PartialEq impls of SingleObjective: %d/%d" % (len(pcs), len(eqs)))
 
 
 def r4_pareto(ctx):
@@ -245,6 +245,20 @@ def r4_pareto(ctx):
                 if p.end != "return" or got != want:
                     bad.append((list(a), list(b), "yields %s, Pareto dominance gives %s" % (got if p.end == "return" else p.end, want)))
     ctx.check(not bad, "C09.R4", fn.key, "pareto-table", "%s vs %s: partial_cmp %s" % (bad[0] if bad else ("", "", "")), detail="%d vector pairs" % n, loc=fn.loc())
+    # the equality the Pareto comparison starts from (derived or hand-written): equal iff same length and equal components
+    eqs = F.fns.get("<%s as core::cmp::PartialEq>::eq" % MO, [])
+    ctx.check(len(eqs) == 1, "C09.R4", MO, "one-equality", "PartialEq impls of MultiObjective: %d" % len(eqs))
+    bad = []
+    for fe in eqs[:1]:
+        for a in vecs:
+            for b in vecs:
+                it = install(Interp(fe.body, chain(coll_oracle, std_oracle), [Ref(10001, [], frame="root"), Ref(10002, [], frame="root")], facts=F, inline=INL, max_visits=8))
+                it.extra_env = {10001: Agg("adt", MO, "MultiObjective", [Vec("a")]), 10002: Agg("adt", MO, "MultiObjective", [Vec("b")])}
+                it.init_state = {"heap": {"a": tuple(a), "b": tuple(b)}, "next_vec": 0}
+                for p in it.run():
+                    if p.end != "return" or p.ret is not (a == b):
+                        bad.append((list(a), list(b), "yields %s, expected %s" % (p.ret if p.end == "return" else p.end, a == b)))
+        ctx.check(not bad, "C09.R4", fe.key, "equality-is-identity-of-vectors", "%s == %s %s" % (bad[0] if bad else ("", "", "")), loc=fe.loc())
 
 
 def run(ctx):
